@@ -455,7 +455,8 @@ def setup():
 
 
 def manifest():
-    specs = {k: v for k, v in load_specs().items() if re.fullmatch(r"C\d\d", k) and not v.get("draft")}
+    reg = set(open(os.path.join(ROOT, "checks", "registered.txt")).read().split())
+    specs = {k: v for k, v in load_specs().items() if k in reg}
     base = json.load(open(os.path.join(ROOT, "manifest_base.json")))
     checks = []
     for pid in sorted(specs):
